@@ -196,9 +196,22 @@ def return_paths(fi):
     return withv, bare, fall
 
 
-def is_stub_body(funcnode):
-    """pass / docstring / assert <constant> / raise NotImplementedError only."""
+def flat_body(funcnode):
+    """Top-level statements of a function with `try: <body> finally: pass`-style wrappers (no handlers, trivial finally) removed."""
     body = list(funcnode.body)
+    while True:
+        k = 1 if (body and isinstance(body[0], ast.Expr) and isinstance(body[0].value, ast.Constant)) else 0
+        rest = body[k:]
+        if len(rest) == 1 and isinstance(rest[0], ast.Try) and not rest[0].handlers and not rest[0].orelse \
+                and all(isinstance(x, ast.Pass) for x in rest[0].finalbody):
+            body = body[:k] + list(rest[0].body)
+            continue
+        return body
+
+
+def is_stub_body(funcnode):
+    """pass / docstring / assert <constant> / raise NotImplementedError only (bare call statements such as logging are ignored)."""
+    body = [st for st in flat_body(funcnode) if not (isinstance(st, ast.Expr) and isinstance(st.value, ast.Call))]
     if body and isinstance(body[0], ast.Expr) and isinstance(body[0].value, ast.Constant) and isinstance(body[0].value.value, str):
         body = body[1:]
     if not body:
